@@ -145,7 +145,7 @@ class Ctx:
             # (SQLite's LIKE folds ASCII letters only).
             def ascii_fold(s):
                 return "".join(c.lower() if "A" <= c <= "Z" else c for c in s)
-            if all(ascii_fold(l).startswith(ascii_fold(d)) and l in got for l in wrong):
+            if all(ascii_fold(l).startswith(ascii_fold(d)) and not l.startswith(d) and l in got for l in wrong):
                 mech = CASE_MECH
         if sum(1 for v in self.violations if v["mechanism"] == mech) < 3:
             self.violations.append({
@@ -323,6 +323,12 @@ async def workflow_sites(ctx, rng, d, labels):
                     if got != expected:
                         ctx.vio("relevant_under", d, labels, got, expected,
                                 extra=f"detached nodes, during_build={during_build}")
+                    # the watcher reports a removed directory as a bare path: same selection
+                    got2 = set(wf.remembered_paths_under(d[:-1], during_build=during_build))
+                    ctx.count("relevant_under", d[:-1], labels)
+                    if got2 != expected:
+                        ctx.vio("relevant_under", d[:-1], labels, got2, expected,
+                                extra=f"detached nodes, directory without the final slash, during_build={during_build}")
                     left = set(wf.relevant_paths_under(d, during_build=during_build))
                     if left:
                         ctx.vio("relevant_under", d, labels, left, set(), extra="attached selection after detaching")
